@@ -72,7 +72,7 @@ scalar("C12", "all triples (stored value, width, amount) with stored value and t
 HOOK_COMMITS = []
 
 ENGINES = [
-    {"name": "E-enum", "path": "engine/vh.h + checks/*.c", "serves_properties": ["C01", "C02", "C03", "C04", "C05", "C06", "C12", "C13", "C16"],
+    {"name": "E-enum", "path": "engine/vh.h + checks/*.c", "serves_properties": ["C01", "C02", "C03", "C04", "C05", "C06", "C12", "C13", "C14", "C16"],
      "kind_free_text": "stateless exhaustive enumeration of explicit finite input alphabets on the real code, guard-page "
                        "sandbox, reference-encoder / reference-model oracles"},
     {"name": "E-bfs", "path": "checks/bitmap_bfs.c", "serves_properties": ["C08"],
@@ -144,4 +144,24 @@ CHECKS["C08"] = dict(
     technique="explicit-state model checking (BFS over operation histories of the real object against a reference set)",
     assumptions=["the 65536-bit reference set and its bit operations are trusted",
                  "histories longer than the depth bound and operands outside the alphabet are not explored"],
+)
+
+CHECKS["C14"] = dict(
+    name="c14", harness=["checks/c14.c", "engine/vmalloc.c"], wrap_malloc=True,
+    libs=["varintTagged.c", "varintExternal.c", "varintDict.c", "varintElias.c", "varintBitmap.c", "varintRLE.c"],
+    configs={"quick": ["pinned", "asan"], "thorough": ["pinned", "asan", "debug"]},
+    shards={"pinned": 16, "asan": 16, "debug": 16},
+    deadline={"quick": 150, "thorough": 1800},
+    rule="byte-string alphabet B: all strings of length 0-2 over all 256 byte values, all strings of length 3-4 (quick) / "
+         "3-6 (thorough) over a 12-byte alphabet {00,01,02,7f,80,f0,f1,f8,f9,fa,fe,ff}; bounded deviations from valid "
+         "encodings of the corpus: every truncation length and every single-byte substitution (two substitutions in the "
+         "thorough tier); tagged bounded reader: all 256 first bytes x n in 0..10 x 4 payload patterns (complete); each "
+         "string handed to both dictionary decoders (4 capacities), both Elias array decoders (9 declared bit counts x 3 "
+         "capacities x 2 fills of the bits past the limit), the bitmap deserialiser and the run counter; class = "
+         "(generator, length, first byte) / (deviation source family)",
+    explanation="E-enum over hostile inputs: the input buffer ends exactly at a PROT_NONE page, the allocator refuses and "
+                "records requests above 16 MiB, a 2 s timer is the horizon, outputs sit before guard pages; results must "
+                "not depend on bits past the declared bit limit; accepted bitmaps are exercised through read-only observers",
+    assumptions=["inputs longer than 6 arbitrary bytes are covered only as deviations (<= 2 substitutions, any truncation) "
+                 "of valid encodings up to 400 bytes"],
 )
